@@ -840,7 +840,11 @@ impl Oracle {
         }
         // --- a due, configured poll that neither sent a DHCP frame nor changed anything: a renewal attempt failed for
         //     lack of a neighbor / route; the interface silences the socket for DISCOVERY_SILENT_TIME
-        if self.configured && was_configured && ev == Ev::None && o.tx.is_empty() && self.prev_pollat.map(|p| p <= t).unwrap_or(false) && valid.is_empty() {
+        //     (second form: the attempt failed in the very poll that delivered the ACK - e.g. T1 = 0 - which shows as
+        //     no DHCP frame and Interface::poll_at = t + DISCOVERY_SILENT_TIME exactly)
+        let due_but_silent = was_configured && ev == Ev::None && self.prev_pollat.map(|p| p <= t).unwrap_or(false) && valid.is_empty();
+        let silent_deadline = o.pollat == Some(t.saturating_add(SILENT_US));
+        if self.configured && o.tx.is_empty() && (due_but_silent || silent_deadline) {
             self.silenced_until = self.silenced_until.max(t.saturating_add(SILENT_US));
             self.bump("silenced_attempts");
         }
